@@ -88,7 +88,7 @@ func (sc *scriptCtx) maybeDrain() {
 	}
 }
 
-var scriptNames = []string{"del_wins", "expired_rewrite", "same_bucket", "sweep_race", "clear_metrics", "overwrite_chain", "ttl_mix", "evict_refill"}
+var scriptNames = []string{"del_wins", "expired_rewrite", "same_bucket", "sweep_race", "clear_metrics", "overwrite_chain", "ttl_mix", "evict_refill", "benign_fill"}
 
 // scenarios whose client calls are strictly sequential (each returns before the next starts) and
 // contain no Clear: with room to spare the C06 reference-map oracle applies to them
@@ -280,6 +280,55 @@ func cacheScript(sc *scriptCtx) {
 		sc.do(0, "wait", 0, 0, 0)
 		sc.tick(7 * time.Second)
 		sc.do(0, "get", k, 0, 0)
+		sc.do(0, "iter", 0, 0, 0)
+	case "benign_fill":
+		// C03 / C09: a history in which no Set can raise the accounted cost of its key (each key is
+		// written once, or again with a cost that is not larger, strictly one call after the other)
+		// and MaxCost is never changed, but the costs add up to more than MaxCost: every admission
+		// beyond the capacity must evict first, also one that needs more victims than one sample
+		// holds (a large item into a cache full of small ones); with Config.Cost deciding the cost
+		// (cost 0 at the call) in half of the configurations.  The C03 oracle (accounted <= MaxCost)
+		// applies to exactly such histories.
+		n := sc.cfg.nKeys
+		small := sc.cfg.maxCost/int64(n) + 1
+		last := map[uint64]int64{}
+		set := func(x uint64, c int64) {
+			if sc.cfg.costFn {
+				c = 0
+			}
+			sc.do(0, "set", x, c, 0)
+			last[x] = c
+		}
+		order := rng.Perm(n)
+		big := uint64(order[n-1] + 1)
+		for _, i := range order[:n-1] {
+			x := uint64(i + 1)
+			set(x, small+int64(rng.Intn(2)))
+			if rng.Intn(3) == 0 {
+				sc.do(other, "get", x, 0, 0)
+			}
+			sc.maybeDrain()
+		}
+		sc.do(0, "wait", 0, 0, 0)
+		sc.do(0, "rem", 0, 0, 0)
+		for i := 0; i < 2+rng.Intn(5); i++ { // make the newcomer popular: it is admitted, after many evictions
+			sc.do(other, "get", big, 0, 0)
+		}
+		set(big, sc.cfg.maxCost*int64(5+rng.Intn(4))/10)
+		sc.do(0, "wait", 0, 0, 0)
+		sc.do(0, "rem", 0, 0, 0)
+		if !sc.cfg.costFn { // second round: same or smaller costs
+			for _, i := range order[:1+rng.Intn(n-1)] {
+				x := uint64(i + 1)
+				c := last[x] - int64(rng.Intn(2))
+				if c < 1 {
+					c = 1
+				}
+				set(x, c)
+			}
+			sc.do(0, "wait", 0, 0, 0)
+		}
+		sc.do(0, "rem", 0, 0, 0)
 		sc.do(0, "iter", 0, 0, 0)
 	case "evict_refill":
 		// C03 / C09 / C13: fill to capacity, overflow with one large and several small items
